@@ -80,6 +80,16 @@ def compare_traces(ra, rb, props, oracle, world_a, client=None, compare_draws=Tr
         r = ra.recipes[ka]
         cell = oracles.make_cell(world_a, pre_a, r, res_a.addressed)
         cell["pre_class"] = "-"
+        if r["do"] == "op" and res_a.status == "ok" and res_b.status == "ok":
+            # operators whose truncated form depends on the cut-off (estimator driven, or expressions that
+            # move photons) are different operators when the twins' cut-offs differ: stop comparing
+            spec = (res_a.info or {}).get("spec") or {}
+            sensitive = spec.get("t") in ("F.Displace", "F.Squeeze") or spec.get("form") in ("rot", "bs")
+            if sensitive:
+                da = [post_a.sub[n]["dims"] for n in r.get("on", []) if n in post_a.sub]
+                db = [post_b.sub[n]["dims"] for n in r.get("on", []) if n in post_b.sub]
+                if da != db:
+                    return None, None
         if r["do"] in ("kraus", "povm", "fault"):
             # channel / operator-set specs are resolved at the targets' *current* dimensions; if the
             # cutoffs differ between the twins the two requests are different channels: stop comparing
@@ -114,6 +124,8 @@ def compare_traces(ra, rb, props, oracle, world_a, client=None, compare_draws=Tr
                     n = max(len(x), len(y))  # cutoffs may differ between twins: pad with zeros
                     x = np.pad(x, (0, n - len(x)))
                     y = np.pad(y, (0, n - len(y)))
+                if x is None and y is None:
+                    continue  # the same non-distribution in both twins (reported by C04, not a divergence)
                 if x is None or y is None or np.max(np.abs(x - y)) > 1e-6:
                     return Violation(props, oracle, "twin-probabilities", cell, f"sid {sid}: {x} vs {y}"), sid
         d = snapshot_diff(post_a, post_b, client=client, tol=tol)
